@@ -87,6 +87,15 @@ def body(ctx, case):
     length = (len(case["x"]) - 1) * case["n"] + 1
     xs, ys = rfagen.check_pair(obj.rfa(), length, f"{case['strategy']}.rfa()")
     grid_predicate(case, xs, "rfa()")
+    # what the caller does with the returned arrays must not leak into a second call on the same strategy object
+    keep_x, keep_y = xs.copy(), ys.copy()
+    xs *= 60.0
+    ys[:] = 0.0
+    xs2, ys2 = rfagen.check_pair(obj.rfa(), length, f"{case['strategy']}.rfa() (second call)")
+    if not (np.array_equal(xs2, keep_x) and np.array_equal(ys2, keep_y)):
+        raise Violation(f"{case['strategy']}: a second rfa() on the same object, after the first result was modified in "
+                        f"place by the caller, returns different arrays")
+    xs, ys = keep_x, keep_y
     w = Weaver(x, y).recreate_from_average(case["n"], **wkw)
     wx, wy = rfagen.check_pair(w.get(), length, "Weaver.recreate_from_average().get()")
     if not (np.array_equal(wx, xs) and np.array_equal(wy, ys)):
